@@ -44,6 +44,11 @@ for d in sorted(glob.glob(os.path.join(VERIF, "seeded", "*"))):
     json.dump(meta, open(os.path.join(d, "meta.json"), "w"), indent=1)
     rows.append((os.path.basename(d), pid, meta["needs_to_manifest"], res))
     print(os.path.basename(d), res, flush=True)
+rows = []
+for d in sorted(glob.glob(os.path.join(VERIF, "seeded", "*"))):
+    if os.path.isdir(d):
+        meta = json.load(open(os.path.join(d, "meta.json")))
+        rows.append((os.path.basename(d), meta["breaks_property"], meta["needs_to_manifest"], meta.get("checks_run", {})))
 with open(os.path.join(VERIF, "seeded", "RESULTS.md"), "w") as f:
     f.write("# Seeded changes and the checks that catch them\n\nEach change compiles, passes the 35 baseline tests and breaks the named property (confirmed in a scratch worktree, see meta.json). `bin/run_seeded.py` applies each to /repo, runs the quick checks and undoes it.\n\n| change | breaks | needs | result per check |\n|---|---|---|---|\n")
     for name, pid, needs, res in rows:
